@@ -54,7 +54,8 @@ def run(ctx):
     vectors = []
     for fn in corpus_files("B"):
         vectors.append([tuple(x) for x in json.load(open(fn))["vector"]])
-    base = [("ok", c) for c in (0, 1, 7, 127, 254, 255)] + [("refuse", 0), ("drc", 3), ("drc", 255), ("ok", 0)]
+    base = [("ok", c) for c in (0, 1, 7, 127, 254, 255)] + [("refuse", 0), ("refuse", 1), ("refuse", 3), ("drc", 3), ("drc", 255), ("ok", 0),
+                                                             ("timeout", 0), ("timeout", 143), ("hangconn", 0)]
     for _ in range(40 if quick else 600):
         k = r.range(1, 4)
         v = [r.choice(base) for _ in range(k)]
@@ -67,16 +68,22 @@ def run(ctx):
                 if kind == "ok":
                     hosts.append(("h%d" % j, "o", "A" + (b"out%d\n" % j + (MARK + b"%d\n" % code if S else b"")).hex(), "-", 0))
                     exp = max(exp, code)
-                elif kind == "refuse":
-                    hosts.append(("h%d" % j, "r", "-", "-", 0))
-                    exp = max(exp, 254)
+                elif kind == "refuse":      # could not be reached; the transport's teardown may report a code of its own
+                    hosts.append(("h%d" % j, "r", "-", "-", code))
+                    exp = max(exp, 254, code)
+                elif kind == "timeout":     # hangs mid-command, abandoned by the command timeout
+                    hosts.append(("h%d" % j, "o", "A" + b"partial\n".hex() + "/H", "-", code))
+                    exp = max(exp, 254, code)
+                elif kind == "hangconn":    # hangs in connect, abandoned by the connect timeout
+                    hosts.append(("h%d" % j, "h", "-", "-", code))
+                    exp = max(exp, 254, code)
                 else:
                     hosts.append(("h%d" % j, "o", "A" + (b"x\n" + (MARK + b"0\n" if S else b"")).hex(), "-", code))
                     exp = max(exp, code)
             if not S:
                 exp = 0
-            ru = eng.run(["-R", "sim"] + (["-S"] if S else []) + ["-f", str(r.range(1, len(v))), "-w", "h[0-%d]" % (len(v) - 1), "cmd"], hosts,
-                         seed=r.next() % (1 << 31))
+            ru = eng.run(["-R", "sim"] + (["-S"] if S else []) + ["-t", "1", "-u", "1", "-f", str(r.range(1, len(v))), "-w", "h[0-%d]" % (len(v) - 1), "cmd"], hosts,
+                         seed=r.next() % (1 << 31), ptick=0, env={"SCHED_MAXSTEP": "30000"}, timeout=10)
             stats["sched_runs"] += 1
             if ru.exit is None or ru.deadlock:
                 viol("schedule", {"vector": v, "S": S, "schedule": ru.choices}, "exit %d" % exp, ru.summary(), "pdsh did not exit normally: " + ru.errtxt[-200:])
@@ -85,10 +92,44 @@ def run(ctx):
                      "outcomes %r %s -S: exit status %d, the property says %d" % (v, "with" if S else "without", ru.exit, exp))
             if len(samples) < 2 and S and len(v) == 3:
                 samples.append({"outcomes": v, "exit": ru.exit})
+    # ---- B2. -k (fail-fast): any failure makes the exit status non-zero; no failure, exit 0 ----
+    kbase = [("ok", 0), ("ok", 0), ("ok", 1), ("ok", 127), ("drc", 2), ("drc", 137), ("refuse", 0), ("refuse", 1), ("timeout", 0), ("hangconn", 0)]
+    for _ in range(60 if quick else 1500):
+        k = r.range(1, 4)
+        v = [r.choice(kbase) for _ in range(k)]
+        hosts, anyfail = [], False
+        for j, (kind, code) in enumerate(v):
+            if kind == "ok":
+                hosts.append(("h%d" % j, "o", "A" + (b"out%d\n" % j + MARK + b"%d\n" % code).hex(), "-", 0))
+                anyfail |= code != 0
+            elif kind == "drc":          # status reported only out of band (transport teardown)
+                hosts.append(("h%d" % j, "o", "A" + (b"x\n" + MARK + b"0\n").hex(), "-", code)); anyfail = True
+            elif kind == "refuse":
+                hosts.append(("h%d" % j, "r", "-", "-", code)); anyfail = True
+            elif kind == "timeout":
+                hosts.append(("h%d" % j, "o", "A" + b"partial\n".hex() + "/H", "-", code)); anyfail = True
+            else:
+                hosts.append(("h%d" % j, "h", "-", "-", code)); anyfail = True
+        ru = eng.run(["-R", "sim", "-k", "-t", "1", "-u", "1", "-f", str(r.range(1, len(v))), "-w", "h[0-%d]" % (len(v) - 1), "cmd"], hosts,
+                     seed=r.next() % (1 << 31), ptick=0, env={"SCHED_MAXSTEP": "30000"}, timeout=10)
+        stats["sched_runs"] += 1
+        if ru.exit is None or ru.deadlock:
+            viol("schedule", {"vector": v, "k": True, "schedule": ru.choices}, "exit", ru.summary(), "pdsh -k did not exit: " + ru.errtxt[-200:])
+        elif anyfail and ru.exit == 0:
+            viol("input", {"vector": v, "k": True}, "non-zero exit", "exit 0", "outcomes %r with -k: a command failed but the exit status is 0" % (v,))
+        elif not anyfail and ru.exit != 0:
+            viol("input", {"vector": v, "k": True}, "exit 0", "exit %d" % ru.exit, "outcomes %r with -k: nothing failed but the exit status is %d" % (v, ru.exit))
     # ---- C. out-of-band status through the exec transport: real children ----
     real = realeng.Real(ctx)
     execs = [("exit 0", 0), ("exit 1", 1), ("exit 42", 42), ("exit 255", 255), ("kill -9 $$", None), ("kill -TERM $$", None), ("kill -SEGV $$", None),
              ("printf foo; exit 3", 3)]
+    # -k with a status that arrives only out of band (child wait status)
+    for cmd, want_fail in (("exit 0", False), ("exit 3", True), ("kill -9 $$", True)):
+        rc, o, e = real.run(["-R", "exec", "-k", "-w", "h[1-2]", "sh", "-c", cmd])
+        stats["exec_runs"] += 1
+        if want_fail != (rc != 0):
+            viol("input", {"exec": cmd, "k": True}, "non-zero" if want_fail else "0", "exit %d" % rc,
+                 "pdsh -R exec -k sh -c %r exited %d (stderr %r)" % (cmd, rc, e[-120:]))
     for cmd, code in execs:
         for S in (True, False):
             rc, o, e = real.run(["-R", "exec"] + (["-S"] if S else []) + ["-w", "h[1-2]", "sh", "-c", cmd])
